@@ -917,6 +917,12 @@ func (in *inliner) expand(file *ast.File, st *site, at token.Pos, mode string, t
 				declared[o] = true
 			}
 		}
+		// the per-clause variable of `switch x := v.(type)` is an implicit object of its clause
+		if cc, ok := n.(*ast.CaseClause); ok {
+			if o := info.Implicits[cc]; o != nil {
+				declared[o] = true
+			}
+		}
 		return true
 	})
 	var visit func(n ast.Node) bool
